@@ -12,11 +12,26 @@ def quoteField (f : List Char) : List Char :=
 
 def writeField (f : List Char) : List Char := if needsQuote f then quoteField f else f
 
-/-- `csv.writer(...).writerow(row)`; a row consisting of one empty field is written as `""` -/
+def joinComma : List (List Char) → List Char
+  | [] => []
+  | [x] => x
+  | x :: xs => x ++ ',' :: joinComma xs
+
+/-- `csv.writer(...).writerow(row)` (QUOTE_MINIMAL); a row consisting of one empty field is written as `""` -/
 def writeRow : List (List Char) → List Char
   | [] => []
   | [[]] => ['"', '"']
-  | fields => (fields.map writeField).foldr (fun f acc => match acc with | none => some f | some a => some (f ++ ',' :: a)) none |>.getD []
+  | fields => joinComma (fields.map writeField)
+
+/-- the same with `quoting=csv.QUOTE_ALL` -/
+def writeRowAll (fields : List (List Char)) : List Char := joinComma (fields.map quoteField)
+
+def startsWithSpace (f : List Char) : Bool := f.head? == some ' '
+
+/-- `GlyphMapping.csv_line` (glyphmap.py:34): QUOTE_ALL as soon as a field starts with a space (the reader
+is created with `skipinitialspace=True`), QUOTE_MINIMAL otherwise -/
+def csvLine (fields : List (List Char)) : List Char :=
+  if fields.any startsWithSpace then writeRowAll fields else writeRow fields
 
 inductive CsvSt where
   | startField | inField | inQuoted | quoteInQuoted
